@@ -33,8 +33,10 @@ type Session struct {
 	Run  int
 	Tick int64 // time of the last block
 
-	RelW  *tracew.Writer // relayer trace (may be nil)
-	LockW *tracew.Writer // locking trace (may be nil)
+	RelW         *tracew.Writer // relayer trace (may be nil)
+	LockW        *tracew.Writer // locking trace (may be nil)
+	BridgeW      *tracew.Writer // bridge trace (may be nil)
+	bridgeAddrID func(string) string
 
 	// harness-side interning of the randomness accumulator: hash chain over accepted vote signatures
 	rdao    []byte
@@ -66,6 +68,8 @@ type RelTx struct {
 	Sig   []byte // vote signature (for the accumulator)
 	Vid   int
 	Votes *relayertypes.Votes
+	BEv   string // bridge-trace event (hashes | pubkey | deposits | process | replace | finalize | approve | other)
+	BF    Ev
 }
 
 // BlockPlan is what a driver wants in the next block.
@@ -82,6 +86,8 @@ type BlockPlan struct {
 	// abstract description of the relayer requests (member ids) for the trace
 	Adds, Removes []int
 	UsePrepare    bool
+	// BridgeAbs is the abstract description of the bridge requests, for the bridge trace.
+	BridgeAbs Ev
 	// LockAbs is the abstract (model-level) description of the locking requests, for the locking trace.
 	LockAbs Ev
 	// EvidAbs describes Misb for the trace: [{v,h,t,known}]
@@ -97,7 +103,9 @@ type HaltError struct {
 	Err    error
 }
 
-func (e *HaltError) Error() string { return fmt.Sprintf("chain halted at height %d: %v", e.Height, e.Err) }
+func (e *HaltError) Error() string {
+	return fmt.Sprintf("chain halted at height %d: %v", e.Height, e.Err)
+}
 
 type BlockResult struct {
 	Payload  *goatmodtypes.ExecutionPayload
@@ -246,6 +254,43 @@ func (s *Session) RunBlock(p *BlockPlan) (*BlockResult, error) {
 			ups = append(ups, [2]int64{int64(id), u.Power})
 		}
 		s.emit(s.LockW, "end", Ev{"ups": ups, "cometOk": out.CometErr == nil, "cometErr": errStr(out.CometErr), "comet": s.cometView(h + 2), "st": st})
+	}
+	// bridge trace
+	if s.BridgeW != nil {
+		nsys := 0
+		if len(pl.ExtraData) > 0 {
+			nsys = int(pl.ExtraData[0])
+		}
+		delivered := []project.SysTx{}
+		for _, t := range project.DecodeSysTxs(pl.Transactions, nsys) {
+			if t.Kind != "reward" && t.Kind != "unlock" {
+				delivered = append(delivered, t)
+			}
+		}
+		abs := p.BridgeAbs
+		if abs == nil {
+			abs = Ev{"withdraws": []Ev{}, "rbf": []Ev{}, "cancel1": []int64{}, "tax": []Ev{}, "conf": []int64{}, "minDep": []int64{}}
+		}
+		s.emit(s.BridgeW, "blockmsg", Ev{"ok": res.TxResults[0].Code == 0, "otherOk": true, "r": abs, "delivered": delivered, "log": short(res.TxResults[0].Log)})
+		for i, t := range p.Txs {
+			r := res.TxResults[i+1]
+			ev, f := t.BEv, t.BF
+			if ev == "" {
+				ev, f = "other", Ev{}
+			}
+			f["ok"] = r.Code == 0
+			f["log"] = short(r.Log)
+			s.emit(s.BridgeW, ev, f)
+		}
+		aid := s.bridgeAddrID
+		if aid == nil {
+			aid = func(a string) string { return a }
+		}
+		st, err := project.Bridge(c, aid)
+		if err != nil {
+			return nil, err
+		}
+		s.emit(s.BridgeW, "end", Ev{"st": st})
 	}
 	// relayer trace
 	if s.RelW != nil {
